@@ -6,13 +6,14 @@ import json, os, subprocess, sys, time
 def sh(cmd, cwd=None, timeout=3600):
     p = subprocess.run(cmd, shell=True, cwd=cwd, stdout=subprocess.PIPE, stderr=subprocess.STDOUT, text=True, timeout=timeout)
     return p.returncode, p.stdout
+REPO = os.environ.get("VERIF_REPO", "/repo")
 name = sys.argv[1]
-d = "/verif/seeded/" + name
+d = os.environ.get("VERIF_DIR", "/verif") + "/seeded/" + name
 meta = json.load(open(d + "/meta.json"))
-rc, out = sh("git -C /repo status --porcelain")
+rc, out = sh("git -C %s status --porcelain" % REPO)
 if out.strip():
     print("refusing: /repo not clean"); sys.exit(2)
-rc, out = sh("git -C /repo apply %s/patch.diff" % d)
+rc, out = sh("git -C %s apply %s/patch.diff" % (REPO, d))
 if rc != 0:
     print("patch does not apply:", out); sys.exit(2)
 import shutil, tempfile
@@ -20,7 +21,8 @@ VD = os.environ.get("VERIF_DIR", "/verif")
 evbak = tempfile.mkdtemp(prefix="evbak")
 shutil.copytree(VD + "/evidence", evbak + "/evidence")
 try:
-    for spec in sys.argv[2:]:
+    specs = sys.argv[2:] or [k.replace(" ", ":") for k in meta.get("checks", {})]
+    for spec in specs:
         cid, _, tier = spec.partition(":")
         tier = tier or "quick"
         t0 = time.time()
@@ -33,7 +35,7 @@ finally:
     shutil.rmtree(VD + "/evidence", ignore_errors=True)
     shutil.copytree(evbak + "/evidence", VD + "/evidence")
     shutil.rmtree(evbak, ignore_errors=True)
-    sh("git -C /repo checkout -- .")
-    rc, out = sh("git -C /repo status --porcelain")
+    sh("git -C %s checkout -- ." % REPO)
+    rc, out = sh("git -C %s status --porcelain" % REPO)
     assert not out.strip(), out
 json.dump(meta, open(d + "/meta.json", "w"), indent=1)
